@@ -209,6 +209,13 @@ theorem pp_split (p : Nat) (hodd : p % 2 = 1) :
     exact (Nat.dvd_iff_mod_eq_zero).1
       (dvd_add (dvd_mul_of_dvd_left hsW _) (Nat.dvd_of_mod_eq_zero b))
 
+/-- `SPRP` is decided by the executable plain Miller test (used to evaluate `SPRP` on literals) -/
+theorem sprp_iff_millerBase (n b : Nat) (h3 : 2 < n) (hodd : n % 2 = 1) (hlt : n < W) :
+    SPRP n b ↔ millerBase n (tz64 (n - 1)) (n / 2 ^ tz64 (n - 1)) b = true := by
+  obtain ⟨_, _, hpd, hd, hd64⟩ := tz_podd_spec n h3 hodd hlt
+  exact (Ymq.Pseudoprime.millerBase_iff_SPRP n _ _ b h3 hodd hd hpd
+    (lt_trans hd64 (Nat.pow_lt_pow_right (by decide) (by decide)))).symm
+
 theorem smallPrimes_small : ∀ b ∈ smallPrimes, 0 < b ∧ b < W := by decide
 
 end Ymq.Mg64
